@@ -153,8 +153,12 @@ pub uninterp spec fn ext_call(exts: &Extensions<'_>, name: Name, args: Seq<Value
 impl ExtensionFunction {
     pub uninterp spec fn spec_name(&self) -> Name;
     pub uninterp spec fn spec_exts<'a>(&self) -> &'a Extensions<'a>;
-    #[verifier::external_body] pub fn call(&self, args: &[Value]) -> (r: Result<PartialValue>) ensures r == ext_call(self.spec_exts(), self.spec_name(), args@) { unimplemented!() }
+    #[verifier::external_body] pub fn call(&self, args: &[Value]) -> (r: Result<PartialValue>) ensures r == ext_call(self.spec_exts(), self.spec_name(), args@),
+            // a residual an extension function returns (the `unknown` constructor): see axiom_ext_residual in rules.rs
+            r is Ok && r->Ok_0 is Residual ==> ext_residual(r->Ok_0->Residual_0) { unimplemented!() }
 }
+/// what an extension function may return as a residual expression
+pub uninterp spec fn ext_residual(x: Expr) -> bool;
 impl<'a> Extensions<'a> {
     pub uninterp spec fn spec_has_func(&self, n: Name) -> bool;
     #[verifier::external_body] pub fn func(&self, n: &Name) -> (r: std::result::Result<&ExtensionFunction, ExtensionFunctionLookupError>)
@@ -172,6 +176,7 @@ impl Expr {
     #[verifier::external_body] pub fn source_loc(&self) -> (r: Option<&Loc>) ensures r == (match self.source_loc { Some(l) => Some(&l), None => None }) { unimplemented!() }
     #[verifier::external_body] pub fn expr_kind(&self) -> (r: &ExprKind) ensures *r == self.expr_kind { unimplemented!() }
     /// "guaranteed never to error on evaluation" (ast/expr.rs; not verified)
+    /// `subexpressions().all(Lit | Unknown | Set | Var | Record)` (assumed in rules.rs to be the recursive predicate projectable())
     pub uninterp spec fn spec_projectable(&self) -> bool;
     #[verifier::external_body] pub fn is_projectable(&self) -> (r: bool) ensures r == self.spec_projectable() { unimplemented!() }
 }
